@@ -1363,12 +1363,23 @@ fn preprocess_initial_file(
     initial_defines: &[(&str, &str)],
 ) -> Result<Vec<PreprocessToken>, PreprocessError> {
     let mut tokens = Vec::<PreprocessToken>::default();
-    let mut macros = Vec::new();
+    let mut macros = Vec::<Macro>::new();
     let mut condition_chain = ConditionChain::new();
 
     // Add initial macros
+    // Each one is processed like a "#define name value" line from a file of its own
+    // This gives the tokens locations and the same treatment as defines in the source
     for (name, value) in initial_defines {
-        let tokens = match TokenStream::new(value, SourceLocation::UNKNOWN)
+        let file_id = file_loader.source_manager.add_file(
+            FileName("<define>".to_string()),
+            format!("{name} {value}"),
+        );
+        let location = file_loader
+            .source_manager
+            .get_source_location_from_file_offset(file_id, StreamLocation(0));
+        let contents = file_loader.source_manager.get_contents(file_id);
+
+        let tokens = match TokenStream::new(contents, location)
             .suppress_trailing_endline()
             .read_to_end()
         {
@@ -1376,13 +1387,12 @@ fn preprocess_initial_file(
             Err(_) => return Err(PreprocessError::InvalidDefine(SourceLocation::UNKNOWN)),
         };
 
-        macros.push(Macro {
-            name: name.to_string(),
-            is_function: false,
-            num_params: 0,
-            tokens,
-            location: SourceLocation::UNKNOWN,
-        });
+        let macro_def = Macro::parse(&tokens)?;
+
+        // Remove any existing macros with the same name
+        macros.retain(|m| m.name != macro_def.name);
+
+        macros.push(macro_def);
     }
 
     preprocess_included_file(
